@@ -284,16 +284,32 @@ def twoNewest (ih : List (Nat × Header)) : Option (Nat × Header) × Option (Na
         | none => (acc.1, some p)
         | some sn => if sn.2.seq < p.2.seq then (acc.1, some p) else acc) (none, none)
 
-def remediate (slotSize : Nat) (skipA skipB : Nat) : List (Nat × Header) → M Unit
+/-- remediation, first pass: abort every other slot that reads as in progress -/
+def remediateAbort (slotSize : Nat) (skipA skipB : Nat) : List (Nat × Header) → M Unit
   | [] => pure ()
   | (i, h) :: rest => do
-    if i = skipA ∨ i = skipB then remediate slotSize skipA skipB rest else
+    if i = skipA ∨ i = skipB then remediateAbort slotSize skipA skipB rest else
     let s : Slot := { idx := i, size := slotSize }
     match totalStatus h with
     | .appWriteInProgress => s.markExtAborted
+    | _ => pure ()
+    remediateAbort slotSize skipA skipB rest
+
+/-- remediation, second pass: erase every other slot with an interrupted bootloader copy or an invalid status -/
+def remediateErase (slotSize : Nat) (skipA skipB : Nat) : List (Nat × Header) → M Unit
+  | [] => pure ()
+  | (i, h) :: rest => do
+    if i = skipA ∨ i = skipB then remediateErase slotSize skipA skipB rest else
+    let s : Slot := { idx := i, size := slotSize }
+    match totalStatus h with
     | .bootloadWriteInProgress | .invalidNeedsErase => s.clear
     | _ => pure ()
-    remediate slotSize skipA skipB rest
+    remediateErase slotSize skipA skipB rest
+
+/-- the remediation of `try_recover_inner` (two passes since the repair: aborts before erases) -/
+def remediate (slotSize : Nat) (skipA skipB : Nat) (ih : List (Nat × Header)) : M Unit := do
+  remediateAbort slotSize skipA skipB ih
+  remediateErase slotSize skipA skipB ih
 
 def loadUsed (par : Slot) (matrixOffset : Nat) : List Nat → Nat → M Nat
   | [], used => pure used
